@@ -36,6 +36,38 @@ def oracle_fwd(ck, b, q, bt, qt, J, x, named):
     return None
 
 
+def oracle_fwd_converted(ck, b, s, J, x):
+    """a named module built under the float32 default, OTHER named modules constructed after it, then converted with
+    .double() and called: still the reference transform for ITS tables (up to the float32 rounding of its taps)"""
+    import torch
+    from pytorch_wavelets import DTCWTForward, DTCWTInverse
+    desc = 'DTCWTForward(%s/%s, J=%d) built in float32, other instances constructed, .double(), shape=%s' % (b, s, J, tuple(x.shape))
+    replay = {'oracle': 'fwd-converted', 'b': b, 's': s, 'J': J, 'x': arr_json(x)}
+    old = torch.get_default_dtype()
+    try:
+        torch.set_default_dtype(torch.float32)
+        mod = DTCWTForward(biort=b, qshift=s, J=J)
+        for (b2, s2) in [(bb, ss) for bb in OD.BIORTS for ss in OD.QSHIFTS if (bb, ss) != (b, s)][::5]:
+            DTCWTForward(biort=b2, qshift=s2, J=2); DTCWTInverse(biort=b2, qshift=s2)
+        mod = mod.double()
+    finally:
+        torch.set_default_dtype(old)
+    with torch.no_grad():
+        yl, yh = mod(torch.tensor(x, dtype=torch.float64))
+    for n in range(x.shape[0]):
+        for c in range(x.shape[1]):
+            low, highs = OD.forward(x[n, c], b, s, J)
+            got = [yl[n, c].numpy()] + [h[n, c].numpy() for h in yh]
+            want = [low] + [OD.to_canon(h) for h in highs]
+            for k, (g_, w_) in enumerate(zip(got, want)):
+                sc = max(1.0, float(np.max(np.abs(w_))))
+                if g_.shape != w_.shape or not float(np.max(np.abs(g_ - w_))) <= 1e-5 * sc:
+                    ck.fail(desc + ': output %d of slice (%d,%d) differs from the reference by %.3g (scale %.3g)' % (
+                        k, n, c, float(np.max(np.abs(g_ - w_))) if g_.shape == w_.shape else float('nan'), sc), replay); return 'diff'
+    ck.oracle_ok(('converted', b, s, J, tuple(x.shape)), group='fwd-converted', sample={'what': desc})
+    return None
+
+
 def oracle(ck, extended):
     rng = ck.rng
     q = ck.tier == 'quick'
@@ -46,6 +78,9 @@ def oracle(ck, extended):
         H = rng.randint(2, 40); W = rng.randint(2, 40)
         x = gen.float_tensor(ck.nprng, (rng.randint(1, 2), rng.randint(1, 2), H, W), rng.choice([1.0, 100.0]))
         rt.guard(ck, oracle_fwd, ck, b, s, bt, qt, J, x, '%s/%s' % (b, s))
+    for _ in range(2 if q else 12):
+        b, s = rng.choice(pairs)
+        rt.guard(ck, oracle_fwd_converted, ck, b, s, rng.randint(1, 3), gen.float_tensor(ck.nprng, (1, 2, rng.randint(4, 24), rng.randint(4, 24))))
     for (H, W, J) in [(2, 2, 3), (4, 4, 4), (3, 5, 4), (8, 8, 5), (6, 2, 3)]:      # deeper than the image is large
         b, s = rng.choice(pairs); bt, qt = OD.lib_tables(b, s)
         rt.guard(ck, oracle_fwd, ck, b, s, bt, qt, J, gen.float_tensor(ck.nprng, (1, 2, H, W)), '%s/%s' % (b, s))
@@ -117,8 +152,11 @@ def replay(ck, path):
     if not f:
         print('replay file names no failing input: %s' % d.get('broken_obligations'))
         return 1
-    bt = tuple(arr_from(a) for a in f['bt']); qt = tuple(arr_from(a) for a in f['qt'])
-    oracle_fwd(ck, bt, qt, bt, qt, f['J'], arr_from(f['x']), f['named'])
+    if f.get('oracle') == 'fwd-converted':
+        oracle_fwd_converted(ck, f['b'], f['s'], f['J'], arr_from(f['x']))
+    else:
+        bt = tuple(arr_from(a) for a in f['bt']); qt = tuple(arr_from(a) for a in f['qt'])
+        oracle_fwd(ck, bt, qt, bt, qt, f['J'], arr_from(f['x']), f['named'])
     for fl in ck.failures:
         print('REPLAY-FAILS: ' + fl['desc'])
     if not ck.failures:
